@@ -59,7 +59,8 @@ package updater
 //@   ensures len(res.Versions) > 0 && !(res.registry.DevMode && devEq && elems(res.Versions)[soff(res.Versions) + len(res.Versions) - 1].Available) && res.SelectedVersion.Blacklisted ==> (forall k int :: soff(res.Versions) <= k && k < soff(res.Versions) + len(res.Versions) ==> !(!elems(res.Versions)[k].PreRelease && selectable(elems(res.Versions)[k])))
 //@   ensures len(res.Versions) > 0 && !(res.registry.DevMode && devEq && elems(res.Versions)[soff(res.Versions) + len(res.Versions) - 1].Available) && res.SelectedVersion.Blacklisted && res.registry.UsePreReleases ==> (forall k int :: soff(res.Versions) <= k && k < soff(res.Versions) + len(res.Versions) ==> !selectable(elems(res.Versions)[k]))
 //@   ensures len(res.Versions) > 0 && !(res.registry.DevMode && devEq && elems(res.Versions)[soff(res.Versions) + len(res.Versions) - 1].Available) && (exists k int :: soff(res.Versions) <= k && k < soff(res.Versions) + len(res.Versions) && !elems(res.Versions)[k].PreRelease && selectable(elems(res.Versions)[k])) ==> selectable(res.SelectedVersion)
-//@   loop 0 invariant rangeindex >= -1 && rangeindex <= 1<<48
+//@   ensures len(res.Versions) > 0 && !(res.registry.DevMode && devEq && elems(res.Versions)[soff(res.Versions) + len(res.Versions) - 1].Available) && (exists c int :: soff(res.Versions) <= c && c < soff(res.Versions) + len(res.Versions) && elems(res.Versions)[c].CurrentRelease && selectable(elems(res.Versions)[c]) && (forall k int :: soff(res.Versions) <= k && k < c ==> !elems(res.Versions)[k].CurrentRelease)) ==> res.SelectedVersion.CurrentRelease && selectable(res.SelectedVersion)
+//@   loop 0 invariant rangeindex >= -1 && rangeindex <= 1<<48 && (forall k int :: soff(res.Versions) <= k && k < soff(res.Versions) + rangeindex + 1 ==> !elems(res.Versions)[k].CurrentRelease)
 //@   loop 1 invariant rangeindex >= -1 && rangeindex <= 1<<48 && (forall k int :: soff(res.Versions) <= k && k < soff(res.Versions) + rangeindex + 1 ==> !selectable(elems(res.Versions)[k]))
 //@   loop 2 invariant rangeindex >= -1 && rangeindex <= 1<<48 && (forall k int :: soff(res.Versions) <= k && k < soff(res.Versions) + rangeindex + 1 ==> !(!elems(res.Versions)[k].PreRelease && selectable(elems(res.Versions)[k])))
 
@@ -77,3 +78,17 @@ package updater
 //@   loop 0 invariant valid >= 1 ==> (exists k int :: soff(res.Versions) <= k && k < soff(res.Versions) + rangeindex + 1 && goodV(elems(res.Versions)[k]))
 //@   loop 0 invariant valid >= 2 ==> (exists a int, b int :: soff(res.Versions) <= a && a < b && b < soff(res.Versions) + rangeindex + 1 && goodV(elems(res.Versions)[a]) && goodV(elems(res.Versions)[b]))
 //@   loop 1 invariant rangeindex >= -1 && rangeindex <= 1<<48 && (forall p *ResourceVersion :: p.Blacklisted == old(p.Blacklisted))
+
+// AddVersion with currentRelease set leaves exactly the added/updated version marked as
+// current release (selectVersion's step 2 takes the first marked version it finds).
+//@ spec oneCurrent(res *Resource) bool = forall a int, b int :: soff(res.Versions) <= a && a < b && b < soff(res.Versions) + len(res.Versions) ==> !(elems(res.Versions)[a].CurrentRelease && elems(res.Versions)[b].CurrentRelease)
+
+//@ func (*Resource).AddVersion
+//@   requires wfRes(res) && distinctV(res)
+//@   nopanic off
+//@   modifies *
+//@   ensures r0 == nil && currentRelease ==> oneCurrent(res)
+//@   loop 0 invariant rangeindex >= -1 && rangeindex < len(res.Versions) && res.Versions == old(res.Versions) && elems(res.Versions) == old(elems(res.Versions))
+//@   loop 0 invariant forall k int :: soff(res.Versions) <= k && k < soff(res.Versions) + rangeindex + 1 ==> !elems(res.Versions)[k].CurrentRelease
+//@   loop 1 invariant rangeindex >= -1 && rangeindex < len(res.Versions) && res.Versions == old(res.Versions) && elems(res.Versions) == old(elems(res.Versions))
+//@   loop 1 invariant currentRelease ==> (forall k int :: soff(res.Versions) <= k && k < soff(res.Versions) + len(res.Versions) ==> !elems(res.Versions)[k].CurrentRelease)
